@@ -415,9 +415,106 @@ func Run(c *engine.Ctx) {
 	// 2b. size classes: copies, unions and intersections of lists with 40, 515, 1027 and 2000 nodes; edits at the
 	// first, a middle and the last two nodes of one side must not show on the other (chunking and threshold code)
 	wide(c)
+	deep(c)
 
 	// 3. histories of calls sharing operands: earlier results never change
 	histories(c)
+}
+
+// deep: persons whose contacts nest 1..130 levels (depths around every power of two). A copy - of the person, of a node
+// that has it as supplier or originator, of the list, a union, an intersection - equals its source at every level and
+// shares no person with it at any level.
+func deep(c *engine.Ctx) {
+	c.Group("deep-nesting")
+	depths := gen.DepthLadder(130)
+	c.Bound("deep-nesting", fmt.Sprintf("contact chains of depth %v x {Person.Copy, Node.Copy (chain as supplier / originator), NodeList.Copy, Union as either operand, Intersect} x an edit at every level of the result or of the source", depths))
+	type view struct {
+		Name string
+		// Do returns the chain inside the result and the chain inside the source
+		Do func(depth int) (res, src *sbom.Person, resMsg, srcMsg proto.Message)
+	}
+	node := func(depth int, tag string) *sbom.Node {
+		return &sbom.Node{Id: "a", Name: "n" + tag, Suppliers: []*sbom.Person{gen.ContactChain(depth)}, Originators: []*sbom.Person{{Name: "plain"}, gen.ContactChain(depth)}}
+	}
+	list := func(depth int, tag string) *sbom.NodeList {
+		return &sbom.NodeList{Nodes: []*sbom.Node{node(depth, tag), {Id: "b", Name: "other"}}, Edges: []*sbom.Edge{{From: "a", Type: sbom.Edge_contains, To: []string{"b"}}}, RootElements: []string{"a"}}
+	}
+	views := []view{
+		{"Person.Copy", func(d int) (*sbom.Person, *sbom.Person, proto.Message, proto.Message) {
+			s := gen.ContactChain(d)
+			r := s.Copy()
+			return r, s, r, s
+		}},
+		{"Node.Copy/supplier", func(d int) (*sbom.Person, *sbom.Person, proto.Message, proto.Message) {
+			s := node(d, "A")
+			r := s.Copy()
+			return r.Suppliers[0], s.Suppliers[0], r, s
+		}},
+		{"Node.Copy/originator", func(d int) (*sbom.Person, *sbom.Person, proto.Message, proto.Message) {
+			s := node(d, "A")
+			r := s.Copy()
+			return r.Originators[1], s.Originators[1], r, s
+		}},
+		{"NodeList.Copy", func(d int) (*sbom.Person, *sbom.Person, proto.Message, proto.Message) {
+			s := list(d, "A")
+			r := s.Copy()
+			return r.GetNodeByID("a").Suppliers[0], s.Nodes[0].Suppliers[0], r, s
+		}},
+		{"Union/second-operand", func(d int) (*sbom.Person, *sbom.Person, proto.Message, proto.Message) {
+			a, b := list(1, "A"), list(d, "B")
+			r := a.Union(b)
+			return r.GetNodeByID("a").Suppliers[0], b.Nodes[0].Suppliers[0], r, b
+		}},
+		{"Union/first-operand", func(d int) (*sbom.Person, *sbom.Person, proto.Message, proto.Message) {
+			a := list(d, "A")
+			b := &sbom.NodeList{Nodes: []*sbom.Node{{Id: "a", Name: "nB"}}}
+			r := a.Union(b)
+			return r.GetNodeByID("a").Suppliers[0], a.Nodes[0].Suppliers[0], r, a
+		}},
+		{"Intersect/second-operand", func(d int) (*sbom.Person, *sbom.Person, proto.Message, proto.Message) {
+			a, b := list(1, "A"), list(d, "B")
+			r := a.Intersect(b)
+			return r.GetNodeByID("a").Suppliers[0], b.Nodes[0].Suppliers[0], r, b
+		}},
+	}
+	for _, d := range depths {
+		for vi := range views {
+			for side := 0; side < 2; side++ {
+				d, vi, side := d, vi, side
+				c.Case(func() any {
+					return map[string]any{"depth": d, "operation": views[vi].Name, "edited": []string{"result", "source"}[side]}
+				}, func(t *engine.T) *engine.Violation {
+					for level := 0; level <= d; level++ {
+						res, src, resMsg, srcMsg := views[vi].Do(d)
+						t.Transitions(1)
+						if level == 0 {
+							if gen.Canon(res, ordered) != gen.Canon(src, ordered) {
+								return engine.Violate("copy-equal", "deep:"+views[vi].Name, "%s with a contact chain of depth %d: the chain in the result differs in content from the source's", views[vi].Name, d)
+							}
+						}
+						mut, otherMsg := res, srcMsg
+						if side == 1 {
+							mut, otherMsg = src, resMsg
+						}
+						p := gen.PersonAt(mut, level)
+						if p == nil {
+							return engine.Violate("copy-equal", "deep:"+views[vi].Name, "%s with a contact chain of depth %d: no person at level %d of the %s", views[vi].Name, d, level, []string{"result", "source"}[side])
+						}
+						before := gen.Snap(otherMsg)
+						p.Name += "-edited"
+						p.Contacts = append(p.Contacts, &sbom.Person{Name: "added"})
+						t.Validated(1)
+						if after := gen.Snap(otherMsg); after != before {
+							return engine.Violate("copy-independent", "deep:"+views[vi].Name, "%s with a contact chain of depth %d: editing the person at level %d of the %s changed the %s: %s", views[vi].Name, d, level, []string{"result", "source"}[side], []string{"source", "result"}[side], gen.SnapDiff(before, after))
+						}
+					}
+					t.State(fmt.Sprint("deep", d, vi, side))
+					t.Outcome("deep-independent-ok")
+					return nil
+				})
+			}
+		}
+	}
 }
 
 func wide(c *engine.Ctx) {
